@@ -183,6 +183,12 @@ func c15Drive(f int, src io.Reader, streamLen int, zero bool, ngopts pcapgo.NgRe
 				if res.snaplen == 0 {
 					res.snaplen = 262144
 				}
+				if res.snaplen > 64<<20 {
+					// the zero-copy call sizes its reusable buffer by the declared snap length, which the property allows
+					// ("plus the declared snap length"); zeroing gigabytes per reader only measures memset and, on a
+					// loaded machine, trips the CPU budget: such streams are read with the copying call
+					zero = false
+				}
 			}
 		case fmtNg:
 			var x *pcapgo.NgReader
@@ -556,7 +562,7 @@ func c15Chunking(c *vlib.Ctx) {
 			what = "corrupted"
 		}
 		zero := r.Bool()
-		if f == fmtClassic && len(stream) >= 20 && (binary.LittleEndian.Uint32(stream[16:]) > 64<<20 && binary.BigEndian.Uint32(stream[16:]) > 64<<20) {
+		if f == fmtClassic && len(stream) >= 20 && (binary.LittleEndian.Uint32(stream[16:]) > 64<<20 || binary.BigEndian.Uint32(stream[16:]) > 64<<20) {
 			// a corrupted snap length of gigabytes: the zero-copy reader sizes its reusable buffer by it, which the property
 			// allows ("plus the declared snap length") - eight readers zeroing gigabytes each only measure memset
 			zero = false
